@@ -190,6 +190,50 @@ def mixed_histories(run, n):
     return problems, n_builds
 
 
+def inline_purity_problems():
+    """inline(m) and every later build leave the CALLER's ModelProto byte-for-byte as it was (models with and without
+    initializers, with symbolic dimensions in inputs / outputs / value infos / subgraphs)."""
+    import warnings
+    import onnx
+    from onnx import TensorProto as TP, helper as oh, numpy_helper
+    import spox.opset.ai.onnx.v17 as op
+
+    def vi(name, shape, t=TP.FLOAT):
+        return oh.make_tensor_value_info(name, t, list(shape))
+
+    w = numpy_helper.from_array(np.array([1, 2], np.float32), "w")
+    protos = []
+    g = oh.make_graph([oh.make_node("Relu", ["x"], ["t"]), oh.make_node("Neg", ["t"], ["y"])], "g", [vi("x", ["N"])], [vi("y", ["N"])],
+                      value_info=[vi("t", ["N"])])
+    protos.append(("symbolic-no-initializer", oh.make_model(g, opset_imports=[oh.make_operatorsetid("", 17)], ir_version=8)))
+    g = oh.make_graph([oh.make_node("Add", ["x", "w"], ["y"])], "g", [vi("x", ["N"])], [vi("y", ["N"])], [w])
+    protos.append(("symbolic-with-initializer", oh.make_model(g, opset_imports=[oh.make_operatorsetid("", 17)], ir_version=8)))
+    then_g = oh.make_graph([oh.make_node("Relu", ["x"], ["tb"])], "then", [], [vi("tb", ["N"])])
+    else_g = oh.make_graph([oh.make_node("Neg", ["x"], ["eb"])], "else", [], [vi("eb", ["N"])])
+    g = oh.make_graph([oh.make_node("If", ["c"], ["y"], then_branch=then_g, else_branch=else_g)], "g",
+                      [vi("x", ["N"]), vi("c", [], TP.BOOL)], [vi("y", ["N"])])
+    protos.append(("symbolic-in-subgraph", oh.make_model(g, opset_imports=[oh.make_operatorsetid("", 17)], ir_version=8)))
+    x0 = B.argument(B.Tensor(np.float32, ("N",)))
+    protos.append(("built-by-spox", B.build({"x": x0}, {"y": op.neg(op.relu(x0))})))
+    problems = []
+    for tag, m in protos:
+        onnx.checker.check_model(m)
+        before = m.SerializeToString(deterministic=True)
+        with warnings.catch_warnings():
+            warnings.simplefilter("ignore")
+            x = B.argument(B.Tensor(np.float32, (2,)))
+            c = B.argument(B.Tensor(np.bool_, ()))
+            args = [x, c][:len(m.graph.input)]
+            (y,) = B.inline(m)(*args).values()
+            if m.SerializeToString(deterministic=True) != before:
+                problems.append(("C12/inline-modifies-callers-model", f"inline(m) changed the caller's ModelProto ({tag})", {"model": tag}))
+                continue
+            B.build(dict(zip(["x", "c"], args)), {"y": y})
+            if m.SerializeToString(deterministic=True) != before:
+                problems.append(("C12/build-modifies-callers-model", f"a build changed the ModelProto that was inlined ({tag})", {"model": tag}))
+    return problems
+
+
 def child(seed, n, prealloc):
     junk = [object() for _ in range(prealloc)]  # different amounts of prior allocation shift object addresses
     run = Run("C12", "quick", seed)
@@ -222,6 +266,9 @@ def run(run: Run) -> int:
         for key, what, si in problems:
             n_prob += 1
             run.fail("impl", key, what, {"history": hi, "step": si, "case": B.describe(cases[si])})
+    for key, what, det in inline_purity_problems():
+        n_prob += 1
+        run.fail("impl", key, what, det)
     mprobs, n_mixed = mixed_histories(run, 4 if run.tier == "quick" else 40)
     for key, what, det in mprobs[:5]:
         n_prob += 1
